@@ -81,6 +81,78 @@ Qed.
 Lemma atom_ok_cons c s : atom_char c = true -> atom_str s = true -> atom_ok (c :: s) = true.
 Proof. intros Hc Hs. unfold atom_ok. cbn [forallb]. unfold atom_str in Hs. now rewrite Hc, Hs. Qed.
 
+(* ---- the guards of BVReduceBW / StringContainsToConcat leave only atoms among the well-formed leaves ---- *)
+(* the guard "the text starts with a double quote or a semicolon" (BVReduceBW), "... with a semicolon" (str.contains) *)
+Definition starts_dq_semi (s : str) : bool := match s with c :: _ => N.eqb c cDQ || N.eqb c cSEMI | [] => false end.
+Definition starts_semi (s : str) : bool := match s with c :: _ => N.eqb c cSEMI | [] => false end.
+
+Lemma qsym_is_piped s : qsym_ok s = true -> is_piped s = true.
+Proof.
+  destruct s as [|c r]; [discriminate|]. unfold qsym_ok, is_piped. intro H.
+  apply andb_true_iff in H as [Hc H]. rewrite Hc. cbn [andb].
+  destruct (rev r) as [|d br] eqn:E; [discriminate|]. apply andb_true_iff in H as [Hd _].
+  assert (Er : r = rev br ++ [d]) by (rewrite <- (rev_involutive r), E; reflexivity).
+  rewrite Er. change (c :: rev br ++ [d]) with ((c :: rev br) ++ [d]). now rewrite last_last.
+Qed.
+
+Lemma strlit_is_string_const s : strlit_ok s = true -> is_string_const_leaf s = true.
+Proof.
+  destruct s as [|c r]; [discriminate|]. unfold strlit_ok, is_string_const_leaf. intro H.
+  apply andb_true_iff in H as [Hc H]. rewrite Hc. cbn [andb].
+  destruct (rev r) as [|d br] eqn:E; [discriminate|]. apply andb_true_iff in H as [Hd _].
+  assert (Er : r = rev br ++ [d]) by (rewrite <- (rev_involutive r), E; reflexivity).
+  rewrite Er. change (c :: rev br ++ [d]) with ((c :: rev br) ++ [d]). now rewrite last_last.
+Qed.
+
+Lemma strlit_is_const s : strlit_ok s = true -> is_const_leaf s = true.
+Proof.
+  intro H. unfold is_const_leaf. rewrite (strlit_is_string_const s H). now rewrite !orb_true_r.
+Qed.
+
+Lemma strlit_starts_dq s : strlit_ok s = true -> starts_dq_semi s = true.
+Proof.
+  destruct s as [|c r]; [discriminate|]. unfold strlit_ok, starts_dq_semi. intro H.
+  apply andb_true_iff in H as [Hc _]. now rewrite Hc.
+Qed.
+
+Lemma comment_starts_semi s : comment_ok s = true -> starts_semi s = true.
+Proof.
+  destruct s as [|c r]; [discriminate|]. unfold comment_ok, starts_semi. intro H.
+  now apply andb_true_iff in H as [Hc _].
+Qed.
+
+Lemma starts_semi_dq_semi s : starts_semi s = true -> starts_dq_semi s = true.
+Proof. destruct s as [|c r]; [discriminate|]. unfold starts_semi, starts_dq_semi. intros ->. apply orb_true_r. Qed.
+
+(* a well-formed leaf is an atom, a string literal, a quoted symbol or a comment *)
+Lemma leaf_ok_cases s :
+  leaf_ok s = true -> atom_ok s = true \/ strlit_ok s = true \/ qsym_ok s = true \/ comment_ok s = true.
+Proof.
+  unfold leaf_ok, atom_ok_lib. intro H. apply orb_true_iff in H as [H | H]; [|now right; right; right].
+  apply orb_true_iff in H as [H | H]; [|now right; right; left].
+  apply orb_true_iff in H as [H | H]; [now left | now right; left].
+Qed.
+
+(* BVReduceBW: not a quoted symbol, does not start with a double quote or a semicolon *)
+Lemma leaf_atom_reduce_bw s :
+  leaf_ok s = true -> is_piped s = false -> starts_dq_semi s = false -> atom_ok s = true.
+Proof.
+  intros Hl Hp Hg. destruct (leaf_ok_cases s Hl) as [H | [H | [H | H]]]; [exact H| | |].
+  - apply strlit_starts_dq in H. congruence.
+  - apply qsym_is_piped in H. congruence.
+  - apply comment_starts_semi, starts_semi_dq_semi in H. congruence.
+Qed.
+
+(* StringContainsToConcat: not a constant, not a quoted symbol, does not start with a semicolon *)
+Lemma leaf_atom_str_contains s :
+  leaf_ok s = true -> is_const_leaf s = false -> is_piped s = false -> starts_semi s = false -> atom_ok s = true.
+Proof.
+  intros Hl Hc Hp Hg. destruct (leaf_ok_cases s Hl) as [H | [H | [H | H]]]; [exact H| | |].
+  - apply strlit_is_const in H. congruence.
+  - apply qsym_is_piped in H. congruence.
+  - apply comment_starts_semi in H. congruence.
+Qed.
+
 Lemma fresh_name_leaf id : leaf_ok (fresh_name id) = true.
 Proof.
   unfold fresh_name. apply atom_str_leaf; [discriminate|]. rewrite !atom_str_app.
